@@ -68,6 +68,7 @@ type Contract struct {
 	Requires   []Clause
 	Assumes    []Clause // assumed at entry, not checked at call sites: ASSUMPTION, listed
 	Ensures    []Clause
+	EnsuresA   []Clause // "ensures_assumed": used at call sites, NOT proved for the function: ASSUMPTION, listed
 	EnsuresP   []Clause
 	PanicsIff  *Clause
 	MayPanic   *Clause
@@ -284,6 +285,8 @@ func (cs *Contracts) parseFile(path, pkg string) error {
 			cur.Assumes = append(cur.Assumes, cl)
 		case "ensures":
 			cur.Ensures = append(cur.Ensures, cl)
+		case "ensures_assumed":
+			cur.EnsuresA = append(cur.EnsuresA, cl)
 		case "ensures_panic":
 			cur.EnsuresP = append(cur.EnsuresP, cl)
 		case "panics_iff":
@@ -411,11 +414,11 @@ func (cs *Contracts) parseFile(path, pkg string) error {
 				return err
 			}
 			cur.Mode = rest
-		case "requires", "ensures", "ensures_panic", "panics_iff", "may_panic", "cover", "assumes":
+		case "requires", "ensures", "ensures_panic", "panics_iff", "may_panic", "cover", "assumes", "ensures_assumed":
 			if err := needCur(); err != nil {
 				return err
 			}
-			if err := startClause(word, 0, rest, word == "ensures" || word == "ensures_panic" || word == "cover" || word == "requires" || word == "assumes"); err != nil {
+			if err := startClause(word, 0, rest, word == "ensures" || word == "ensures_panic" || word == "cover" || word == "requires" || word == "assumes" || word == "ensures_assumed"); err != nil {
 				return err
 			}
 		case "after":
